@@ -83,6 +83,18 @@ def run(ctx: Ctx) -> Result:
                 elif ok and not (wk == 'single' and lk == 'single') :
                     # cross-pairings unlock only by coincidence of layout; none of these layouts coincide
                     B.viol(f'{wk} witness unlocks a {lk} lock', {**inp, 'scripts': [w.bytes.hex(), l.bytes.hex()], 'cache': vmrun.cache_str(sf, False)}, False, v)
+        # a script-hash lock whose commitment differs from the witness script's digest in ONE bit - wherever in the digest that bit
+        # is (first byte, a middle byte, last byte) - does not run the script
+        import hashlib as _hl
+        dg_ = _hl.shake_256(committed.bytes).digest(hs_)
+        lkb = locks['scripthash'].bytes
+        at_ = lkb.find(dg_)
+        if at_ >= 0 and not isinstance(W['scripthash'], str):
+            for pos in sorted({0, 1, hs_ // 2, max(0, hs_ - 9), hs_ - 1}):
+                lk1 = lkb[:at_ + pos] + bytes([lkb[at_ + pos] ^ (1 << rng.randrange(8))]) + lkb[at_ + pos + 1:]
+                res.note_case((tuple(seeds), 'commitment-bit', hs_, pos))
+                ok, v = B.auth([W['scripthash'].bytes, lk1], sf)
+                if ok: B.viol(f'scripthash lock ({hs_}-byte commitment) with bit flipped in byte {pos} of the commitment accepts the witness for the original script', {**inp, 'scripts': [W['scripthash'].bytes.hex(), lk1.hex()], 'cache': vmrun.cache_str(sf, False)}, False, v)
         # a used authorization (signature, surrogate) is public: re-cutting the pair - bytes of the surrogate moved onto the end of the
         # signature item, so that the TAIL of the surrogate is what the lock would evaluate - is a surrogate the key never signed
         for sur_src in ('true', 'push x' + pks[1].hex() + ' check_sig_verify x00 true', 'push d1 push d1 equal'):
